@@ -18,8 +18,9 @@ fn hard_only(p: &ProblemSpec) -> ProblemSpec {
 }
 
 fn no_hints(w: &mut World) {
-    for p in w.packages.values_mut() {
-        p.hint = Hint::None;
+    // "no availability hints" can be spelled `None` or as an empty list
+    for (n, p) in w.packages.iter_mut() {
+        p.hint = if n % 3 == 1 { Hint::Some(vec![]) } else { Hint::None };
     }
 }
 
@@ -132,6 +133,43 @@ fn maybe_exempt_soft_family(seed: u64, sc: &mut Scenario, one_in: usize) {
     for (k, x) in soft.into_iter().enumerate() {
         p.soft.insert(pos + k, x);
     }
+}
+
+/// On a fraction of the seeds: a wide fan-out world (31..60 requirements on distinct packages, packages with more
+/// than 30 hinted candidates, unions with more than 30 members).
+fn maybe_wide(seed: u64, sc: &mut Scenario, one_in: usize) -> bool {
+    let mut r = Rng::stream(seed, "wide");
+    if !r.chance(1, one_in) {
+        return false;
+    }
+    let width = r.range(31, 60);
+    let (mut w, mut p) = crate::gen::gen_wide(&mut r, width);
+    if r.chance(1, 3) {
+        let k = r.range(32, 45);
+        crate::gen::add_many_soft(&mut r, &mut w, &mut p, k);
+    }
+    sc.world = w;
+    sc.solves.truncate(1);
+    sc.solves[0].problem = p;
+    true
+}
+
+/// On a fraction of the seeds: a dependency chain of several hundred to a few thousand packages.
+fn maybe_chain(seed: u64, sc: &mut Scenario, one_in: usize) -> bool {
+    let mut r = Rng::stream(seed, "chain");
+    if !r.chance(1, one_in) {
+        return false;
+    }
+    let len = r.range(300, 3000);
+    let (w, p) = crate::gen::gen_chain(&mut r, len);
+    sc.world = w;
+    for s in sc.solves.iter_mut() {
+        s.problem = p.clone();
+        s.cancel = None;
+    }
+    sc.poll_budget = 30_000 + 20 * len as u64;
+    sc.step_budget = 100_000 + 20 * len as u64;
+    true
 }
 
 /// On a fraction of the seeds the scenario's world is replaced by a forest of independent small worlds.
@@ -706,6 +744,8 @@ impl Property for C04 {
         let mut sc = std_scenario(seed, &swarm(seed, base, tier), None);
         maybe_unrequested_soft(seed, &mut sc, 4);
         maybe_exempt_soft_family(seed, &mut sc, 10);
+        maybe_wide(seed, &mut sc, 300);
+        maybe_chain(seed, &mut sc, 4000);
         sc.render = true;
         sc.cancel_during_render = r.chance(1, 4);
         vec![sc]
@@ -1174,7 +1214,7 @@ impl Property for C09 {
         vec![sc]
     }
     fn judge(&self, sc: &Scenario) -> Verdict {
-        if sc.world.packages.values().any(|p| p.hint != Hint::None) || sc.reentrant_sort {
+        if sc.world.packages.values().any(|p| !matches!(&p.hint, Hint::None) && p.hint != Hint::Some(vec![])) || sc.reentrant_sort {
             let mut v = Verdict::default();
             v.skipped_pre = true;
             return v;
@@ -1305,7 +1345,18 @@ impl Property for C10 {
         }
         let mut wr = Rng::stream(seed, "world");
         let history = seed % 5 == 0;
-        let (w, ps) = gen_world(&mut wr, &params, if history { 2 } else { 1 });
+        let (mut w, mut ps) = gen_world(&mut wr, &params, if history { 2 } else { 1 });
+        {
+            let mut r = Rng::stream(seed, "wide");
+            if r.chance(1, 60) {
+                let width = r.range(31, 60);
+                let (ww, wp) = crate::gen::gen_wide(&mut r, width);
+                w = ww;
+                for p in ps.iter_mut() {
+                    *p = wp.clone();
+                }
+            }
+        }
         let m = if tier == Tier::Quick { 8 } else { 16 };
         let mut out = Vec::new();
         let mut cr = Rng::stream(seed, "config");
@@ -1476,6 +1527,7 @@ impl Property for C11 {
         base.max_packages = 10;
         let params = swarm(seed, base, tier);
         let mut sc = std_scenario(seed, &params, Some(true));
+        maybe_wide(seed, &mut sc, 60);
         sc.yield_mask |= Y_CAND;
         if seed % 3 == 0 {
             sc.yield_mask |= Y_DEPS;
@@ -1544,6 +1596,11 @@ impl Property for C12 {
             base.max_soft = 2;
         }
         let mut sc = std_scenario(seed, &swarm(seed, base, tier), None);
+        if maybe_wide(seed, &mut sc, 40) {
+            // the interesting cancellation points of a wide world need requests in flight
+            let mut cr = Rng::stream(seed, "wide-config");
+            gen_config(&mut cr, &mut sc, Some(true));
+        }
         // explicit trace-free policies only (the schedule must not depend on the fault)
         sc.spurious_p = 0;
         let base_rec = execute(&sc);
@@ -1720,6 +1777,9 @@ impl Property for C13 {
         sc.activity = gen_activity(&mut cr);
         sc.hash_salt = Rng::stream(seed, "hash_salt").next_u64();
         sc.spurious_p = 0;
+        if maybe_chain(seed, &mut sc, 3000) {
+            return vec![sc];
+        }
         // cancellation faults
         if seed % 2 == 1 {
             let base_rec = execute(&sc);
@@ -1872,6 +1932,7 @@ impl Property for C14 {
         let mut sc = std_scenario(seed, &swarm(seed, base, tier), None);
         maybe_unrequested_soft(seed, &mut sc, 4);
         maybe_exempt_soft_family(seed, &mut sc, 8);
+        maybe_wide(seed, &mut sc, 400);
         if sc.solves[0].problem.soft.is_empty() && !sc.world.solvables.is_empty() {
             let mut r = Rng::stream(seed, "soft");
             let all: Vec<u32> = sc.world.solvables.keys().copied().collect();
